@@ -399,7 +399,7 @@ def do_loop_fusion(routine):
                 for loop_variable, fusion_variable in zip(variables, fusion_variables):
                     if loop_variable != fusion_variable:
                         var_map.update({var: fusion_variable for var in FindVariables().visit(body)
-                                        if var.name.lower() == loop_variable.name})
+                                        if var.name.lower() == loop_variable.name.lower()})
                 if var_map:
                     body = SubstituteExpressions(var_map).visit(body)
 
